@@ -1085,6 +1085,29 @@ def safety_check(pid, mode, tier):
                     chk.add_failure({"mode": "T", "predicate": repr(p_), "flags": int(getattr(p_, "flags", 0)), "position": i}, {"what": "generate_true(regex_p(...)) yielded a string the pattern does not match", "value": ascii(v)}, None)
                     break
         chk.extra["regex_values_judged"] = rx_judged
+    # ---- composites over opaque function atoms (outside the wire format of the generator model): judged on the real code only
+    def _even(x):
+        return isinstance(x, int) and not isinstance(x, bool) and x % 2 == 0
+
+    def _small(x):
+        return isinstance(x, (int, float)) and not isinstance(x, bool) and abs(x) < 50
+
+    fn_specs = [
+        ("ge_p(0) & fn_p(even)", lambda: P.ge_p(0) & P.fn_p(_even)), ("ge_p(0) & (fn_p(even) & eq_p(4))", lambda: P.ge_p(0) & (P.fn_p(_even) & P.eq_p(4))),
+        ("is_int_p & (fn_p(even) & eq_p(4))", lambda: P.is_int_p & (P.fn_p(_even) & P.eq_p(4))), ("is_int_p & fn_p(small)", lambda: P.is_int_p & P.fn_p(_small)),
+        ("le_p(10) & (fn_p(small) & ne_p(3))", lambda: P.le_p(10) & (P.fn_p(_small) & P.ne_p(3))), ("in_p(2, 3, 4) & fn_p(even)", lambda: P.in_p(2, 3, 4) & P.fn_p(_even)),
+    ]
+    fn_judged = 0
+    if mode == "T":
+        for d_, th in fn_specs:
+            p_ = th()
+            items, st, _, _ = pull_impl("T", p_, 25, EVENTS, seed=chk.seed * 1000 + 5)
+            for i, v in enumerate(items):
+                fn_judged += 1
+                if call(p_, v) is not True:
+                    chk.add_failure({"mode": "T", "predicate": d_, "seed": chk.seed * 1000 + 5, "position": i}, {"what": "generate_true yielded a value on which the predicate does not return True (function atoms in a conjunction)", "value": repr(v)[:200]}, None)
+                    break
+    chk.extra["fn_composite_values_judged"] = fn_judged
     # ---- history: the values a stream yields belong to the caller.  Draw from both generators of a spec, change every
     # yielded container in place (empty ones get an item, non-empty ones are emptied; nested ones too), then open a NEW
     # stream: its values must still satisfy / violate the predicate (a sample object shared between streams shows here)
